@@ -3,6 +3,7 @@ package main
 // Calls: conversions, builtins, library models, contracts at call sites, inlining.
 
 import (
+	"go/constant"
 	"runtime"
 	"fmt"
 	"go/ast"
@@ -1173,6 +1174,17 @@ func (fr *frame) builtinModel(st *State, call *ast.CallExpr, fn *types.Func, rec
 		st.assume(Neq(v.Typ, mkInt(0)), Gt(v.S, mkInt(0)))
 		return []*Value{v}, true
 	case full == "fmt.Sprintf" || full == "fmt.Sprint":
+		// fmt.Sprintf("%d", n) with one integer argument: the decimal text of n, an (injective) uninterpreted
+		// function of n that specifications name decimal(n); every other format is an arbitrary string
+		if full == "fmt.Sprintf" && call != nil && len(call.Args) == 2 && !call.Ellipsis.IsValid() {
+			if tv, ok := fr.info.Types[call.Args[0]]; ok && tv.Value != nil && tv.Value.Kind() == constant.String && constant.StringVal(tv.Value) == "%d" {
+				_, isIdent := call.Args[1].(*ast.Ident) // (re-evaluated here: only a plain variable, which has no effects)
+				if bt, ok := fr.typeOf(call.Args[1]).Underlying().(*types.Basic); ok && isIdent && bt.Info()&types.IsInteger != 0 {
+					n := fr.eval(st, call.Args[1])
+					return []*Value{scalar(mkUF("fmt.decimal", SString, n.S), sig.Results().At(0).Type())}, true
+				}
+			}
+		}
 		return []*Value{freshValue(sig.Results().At(0).Type(), "sprintf")}, true
 	case strings.HasPrefix(full, "fmt.Print") || strings.HasPrefix(full, "log."):
 		return fr.opaqueResults(st, sig, "io"), true
